@@ -1,7 +1,8 @@
 (** C10 — Router lifecycle: Running, RunHandlers, Stop and self-close behave as documented.
     Model: RouterLife/Model.v (message/router.go: Run, RunHandlers, handler goroutine,
     handleClose, watcher, AddHandler, Close protocol, Handler.Stop/Stopped) with the variant
-    flags [fix4] (D4 repaired), [fix14] (D14 repaired), [fix15] (D15 repaired); [rinit fix4 fix14 fix15].
+    flags [fix4] (D4 repaired), [fix14] (D14 repaired), [fix15] (D15 repaired), [fix16] (C06's D16 repaired);
+    [rinit fix4 fix14 fix15 fix16].
     handleClose and Close are modelled as in the merged tree (C06's D6 / D5 / D12 repairs).
     All theorems quantify over EVERY label list = every client program (any number of handlers,
     RunHandlers / Stop / Close / Run calls and threads) and every schedule. *)
@@ -9,19 +10,20 @@ From WM Require Import Base.Prelude Base.Count RouterLife.Model RouterLife.Monit
                        RouterLife.ProofsA RouterLife.ProofsB RouterLife.ProofsW RouterLife.SelfClose RouterLife.Local RouterLife.Accept RouterLife.Theorems RouterLife.Witness.
 
 (** Running() closed => each of the [run_n] handlers registered when Run's RunHandlers took
-    handlersLock is started and holds its (one) subscription. *)
-Theorem C10_running_after_all_subscribed : forall (f4 f14 f15 : bool) (ls : list label),
-  let s := run (rinit f4 f14 f15) ls in
+    handlersLock is started and holds its (one) subscription - unless a Close BEFORE that Run
+    removed it from the router ([h_removed], D16 repair; never true with fix16 = false). *)
+Theorem C10_running_after_all_subscribed : forall (f4 f14 f15 f16 : bool) (ls : list label),
+  let s := run (rinit f4 f14 f15 f16) ls in
   runningCh s = true ->
-  forall h, h < run_n s ->
+  forall h, h < run_n s -> h_removed (hs s h) = false ->
     h < nexth s /\ h_started (hs s h) = true /\ h_startedCh (hs s h) = true /\ h_subs (hs s h) = 1.
 Proof. exact running_after_all_subscribed. Qed.
 Print Assumptions C10_running_after_all_subscribed.
 
 (** However often and from however many goroutines RunHandlers is called, a handler is
     subscribed at most once, and exactly once as soon as it is started. *)
-Theorem C10_runhandlers_idempotent : forall (f4 f14 f15 : bool) (ls : list label) (h : hid),
-  let s := run (rinit f4 f14 f15) ls in
+Theorem C10_runhandlers_idempotent : forall (f4 f14 f15 f16 : bool) (ls : list label) (h : hid),
+  let s := run (rinit f4 f14 f15 f16) ls in
   h_subs (hs s h) <= 1 /\ (h_started (hs s h) = true -> h_subs (hs s h) = 1).
 Proof. exact runhandlers_idempotent. Qed.
 Print Assumptions C10_runhandlers_idempotent.
@@ -29,8 +31,8 @@ Print Assumptions C10_runhandlers_idempotent.
 (** After the D4 repair: Started() closed => stopFn and stopped are assigned, a Stop() called
     after Started() was observed returns normally, Stopped() closes exactly when the handler
     goroutine is done. *)
-Theorem C10_started_implies_stoppable : forall (f14 f15 : bool) (ls : list label),
-  let s := run (rinit true f14 f15) ls in
+Theorem C10_started_implies_stoppable : forall (f14 f15 f16 : bool) (ls : list label),
+  let s := run (rinit true f14 f15 f16) ls in
   (forall h, h_startedCh (hs s h) = true ->
              h_started (hs s h) = true /\ h_stopFn (hs s h) = true /\ h_stoppedSet (hs s h) = true)
   /\ (forall t h r, thr s t = TStopDone h true r -> r = StopOk)
@@ -40,16 +42,16 @@ Print Assumptions C10_started_implies_stoppable.
 
 (** FALSE of the pinned code (D4): Started() is closed before stopFn / stopped are assigned. *)
 Theorem C10_started_implies_stoppable_refuted :
-  let s := run (rinit false true true) d4_schedule in
+  let s := run (rinit false true true true) d4_schedule in
   h_startedCh (hs s 0) = true /\ h_stoppedSet (hs s 0) = false /\ thr s 1 = TStopDone 0 true StopNilPanic
-  /\ verdict (hist (rinit false true true) d4_schedule) = 4.
+  /\ verdict (hist (rinit false true true true) d4_schedule) = 4.
 Proof. exact d4_refuted. Qed.
 Print Assumptions C10_started_implies_stoppable_refuted.
 
 Theorem C10_started_implies_stoppable_fixed_witness :
-  let s := run (rinit true true true) d4_schedule in
+  let s := run (rinit true true true true) d4_schedule in
   h_stoppedSet (hs s 0) = true /\ thr s 1 = TStopDone 0 true StopOk /\ h_cancel (hs s 0) = true
-  /\ verdict (hist (rinit true true true) d4_schedule) = 0.
+  /\ verdict (hist (rinit true true true true) d4_schedule) = 0.
 Proof. exact d4_fixed_witness. Qed.
 Print Assumptions C10_started_implies_stoppable_fixed_witness.
 
@@ -59,8 +61,8 @@ Print Assumptions C10_started_implies_stoppable_fixed_witness.
     ([h_envend]) - while nothing global happened ([glob]: Run context cancelled, Run's own cancel,
     router closing) - is still in its receive loop with an open subscription and a live context,
     takes its next message, and its publisher is open unless a handler SHARING it was stopped/ended. *)
-Theorem C10_stop_is_local : forall (f4 f14 f15 : bool) (ls : list label),
-  let s := run (rinit f4 f14 f15) ls in
+Theorem C10_stop_is_local : forall (f4 f14 f15 f16 : bool) (ls : list label),
+  let s := run (rinit f4 f14 f15 f16) ls in
   forall h2, h_loop (hs s h2) <> LNone -> reason (hs s h2) = false -> glob s = false ->
     h_loop (hs s h2) = LRange /\ h_subOpen (hs s h2) = true /\ h_cancel (hs s h2) = false
     /\ step s (LRecv h2) <> None
@@ -104,11 +106,11 @@ Print Assumptions C10_running_handler_accepts.
     with handler 1 - handler 1 keeps receiving but its publish fails; handler 2 (own publisher)
     is unaffected.  The monitor accepts this history. *)
 Theorem C10_shared_publisher_witness :
-  let s := run (rinit true true true) shared_schedule in
+  let s := run (rinit true true true true) shared_schedule in
   h_loop (hs s 1) = LRange /\ h_subOpen (hs s 1) = true /\ h_loop (hs s 2) = LRange /\ pubClosed s 0 = true /\ pubClosed s 1 = false
-  /\ rev (hist (rinit true true true) shared_schedule) = AProcessed 2 true :: AProcessed 1 false :: APubClose 0 :: AStopRet 1 StopOk ::
-       skipn 4 (rev (hist (rinit true true true) shared_schedule))
-  /\ verdict (hist (rinit true true true) shared_schedule) = 0.
+  /\ rev (hist (rinit true true true true) shared_schedule) = AProcessed 2 true :: AProcessed 1 false :: APubClose 0 :: AStopRet 1 StopOk ::
+       skipn 4 (rev (hist (rinit true true true true) shared_schedule))
+  /\ verdict (hist (rinit true true true true) shared_schedule) = 0.
 Proof. exact shared_publisher_witness. Qed.
 Print Assumptions C10_shared_publisher_witness.
 
@@ -119,8 +121,8 @@ Print Assumptions C10_shared_publisher_witness.
     or some call in progress ([internal] label: Run, watcher, handler goroutine, handleClose,
     context-honouring subscriber, in-flight message, thread inside RunHandlers/Close/Stop/Run)
     can take a step: no deadlock before Run returns.  (Run's last step returns nil.) *)
-Theorem C10_self_close_never_stuck : forall (ls : list label),
-  let s := run (rinit true true true) ls in
+Theorem C10_self_close_never_stuck : forall (f16 : bool) (ls : list label),
+  let s := run (rinit true true true f16) ls in
   mainp s <> RNone -> (forall ok, mainp s <> RDone ok) ->
   (0 < nexth s /\ all_past_done s) \/ (cctx s = true /\ all_follow_ctx s) ->
   exists l, internal l = true /\ step s l <> None.
@@ -128,9 +130,9 @@ Proof. exact self_close_not_stuck. Qed.
 Print Assumptions C10_self_close_never_stuck.
 
 (** the WaitGroup part on its own, for every variant: all goroutines past Done => counter zero *)
-Theorem C10_self_close_wg_zero : forall (f4 f14 f15 : bool) (ls : list label),
-  let s := run (rinit f4 f14 f15) ls in
-  (forall h, h < nexth s -> pend (h_loop (hs s h)) = false) ->
+Theorem C10_self_close_wg_zero : forall (f4 f14 f15 f16 : bool) (ls : list label),
+  let s := run (rinit f4 f14 f15 f16) ls in
+  (forall h, h < nexth s -> pendh (hs s h) = false) ->
   hwg s = 0 /\ (wat s = WWait -> step s (LWatch CStep) <> None).
 Proof. exact all_ended_wg_zero. Qed.
 Print Assumptions C10_self_close_wg_zero.
@@ -138,47 +140,65 @@ Print Assumptions C10_self_close_wg_zero.
 (** FALSE of the pinned code (D14): started empty, first handler added before the watcher blocks
     in its select, handler stopped -> every handler ended, no goroutine can move, Run never returns. *)
 Theorem C10_self_close_refuted :
-  let s := run (rinit true false true) d14_schedule in
+  let s := run (rinit true false true true) d14_schedule in
   nexth s = 1 /\ h_loop (hs s 0) = LDone /\ hwg s = 0 /\ mainp s = RWaitClosing /\ wat s = WSelect
   /\ hadded s = 0 /\ closedF s = false /\ stuck s 3 = true /\ panicked s = false
-  /\ verdict (hist (rinit true false true) d14_schedule ++ [ARunHung]) = 9.
+  /\ verdict (hist (rinit true false true true) d14_schedule ++ [ARunHung]) = 9.
 Proof. exact d14_refuted. Qed.
 Print Assumptions C10_self_close_refuted.
 
 (** the same schedule on the repaired code: the signal is kept, the router closes itself, Run returns nil *)
 Theorem C10_self_close_fixed_witness :
-  let s := run (rinit true true true) (d14_schedule ++ self_close_tail) in
+  let s := run (rinit true true true true) (d14_schedule ++ self_close_tail) in
   mainp s = RDone true /\ wat s = WDone /\ closedCh s = true /\ hlock s = None /\ clock s = None
-  /\ verdict (hist (rinit true true true) (d14_schedule ++ self_close_tail)) = 0.
+  /\ verdict (hist (rinit true true true true) (d14_schedule ++ self_close_tail)) = 0.
 Proof. exact d14_fixed_witness. Qed.
 Print Assumptions C10_self_close_fixed_witness.
 
 (** Run context cancelled with one handler: the router closes itself and Run returns nil ... *)
 Theorem C10_cancel_closes_witness :
-  let s := run (rinit true true true) cancel_schedule in mainp s = RDone true /\ h_stoppedCh (hs s 0) = true.
+  let s := run (rinit true true true true) cancel_schedule in mainp s = RDone true /\ h_stoppedCh (hs s 0) = true.
 Proof. exact cancel_closes_witness. Qed.
 Print Assumptions C10_cancel_closes_witness.
 
 (** ... but FALSE of the pinned watcher for a router WITHOUT handlers (D15): it only waits for
     handlerAdded / closedCh, nothing can move after the cancel ([fix15 = false]). *)
 Theorem C10_cancel_empty_router_refuted :
-  let s := run (rinit true true false) d15_schedule in
+  let s := run (rinit true true false true) d15_schedule in
   cctx s = true /\ nexth s = 0 /\ mainp s = RWaitClosing /\ wat s = WSelect /\ stuck s 2 = true
-  /\ verdict (hist (rinit true true false) d15_schedule ++ [ARunHung]) = 11.
+  /\ verdict (hist (rinit true true false true) d15_schedule ++ [ARunHung]) = 11.
 Proof. exact d15_refuted. Qed.
 Print Assumptions C10_cancel_empty_router_refuted.
 
 (** the same schedule after the D15 repair (the watcher's select also waits for the Run context) *)
 Theorem C10_cancel_empty_router_fixed_witness :
-  let s := run (rinit true true true) (d15_schedule ++ d15_tail) in
-  mainp s = RDone true /\ wat s = WDone /\ closedCh s = true /\ verdict (hist (rinit true true true) (d15_schedule ++ d15_tail)) = 0.
+  let s := run (rinit true true true true) (d15_schedule ++ d15_tail) in
+  mainp s = RDone true /\ wat s = WDone /\ closedCh s = true /\ verdict (hist (rinit true true true true) (d15_schedule ++ d15_tail)) = 0.
 Proof. exact d15_fixed_witness. Qed.
 Print Assumptions C10_cancel_empty_router_fixed_witness.
 
+(** D16 (C06's repair, as far as this model sees it): FALSE of the code before bc235ce - Close on a
+    router with a handler that was added but never started waits although nothing runs; only the
+    timeout ends it ([fix16 = false]) ... *)
+Theorem C10_close_unstarted_refuted :
+  let s := run (rinit true true true false) d16_schedule in
+  thr s 0 = TClose KWait /\ hwg s = 1 /\ mainp s = RNone /\ wat s = WNone /\ h_loop (hs s 0) = LNone
+  /\ step s (LT 0 CStep) = None
+  /\ thr (run s [LT 0 CAlt; LT 0 CStep]) 0 = TClose (KRet false).
+Proof. exact d16_refuted. Qed.
+Print Assumptions C10_close_unstarted_refuted.
+
+(** ... and with the repair Close releases and removes it and returns nil. *)
+Theorem C10_close_unstarted_fixed_witness :
+  let s := run (rinit true true true true) (d16_schedule ++ [LT 0 CStep; LT 0 CStep]) in
+  thr s 0 = TClose (KRet true) /\ hwg s = 0 /\ h_removed (hs s 0) = true /\ h_inmap (hs s 0) = false /\ panicked s = false.
+Proof. exact d16_fixed_witness. Qed.
+Print Assumptions C10_close_unstarted_fixed_witness.
+
 (** A second Run returns an error: no Run call other than the first to pass the check ever
     returns nil or gets inside; isRunning is set as soon as the first one passed. *)
-Theorem C10_second_run_errors : forall (f4 f14 f15 : bool) (ls : list label),
-  let s := run (rinit f4 f14 f15) ls in
+Theorem C10_second_run_errors : forall (f4 f14 f15 f16 : bool) (ls : list label),
+  let s := run (rinit f4 f14 f15 f16) ls in
   (forall t ok, thr s t = TRunDone ok -> ok = false)
   /\ (forall t t', thr s t = TMain -> thr s t' = TMain -> t = t')
   /\ (isRunning s = true <-> mainp s <> RNone).
@@ -186,12 +206,12 @@ Proof. exact second_run_errors. Qed.
 Print Assumptions C10_second_run_errors.
 
 (** handlersWg never goes negative; handlersLock is held by exactly the thread inside its critical section. *)
-Theorem C10_no_panic_and_mutex : forall (f4 f14 f15 : bool) (ls : list label),
-  let s := run (rinit f4 f14 f15) ls in
+Theorem C10_no_panic_and_mutex : forall (f4 f14 f15 f16 : bool) (ls : list label),
+  let s := run (rinit f4 f14 f15 f16) ls in
   panicked s = false
   /\ (forall t t', thr_hl (thr s t) = true -> thr_hl (thr s t') = true -> t = t')
   /\ (forall t, thr_hl (thr s t) = true -> main_hl (mainp s) = false /\ wat_hl (wat s) = false)
-  /\ hwg s = cnt (fun h => pend (h_loop (hs s h))) (nexth s).
+  /\ hwg s = cnt (fun h => pendh (hs s h)) (nexth s).
 Proof. exact no_panic_and_mutex. Qed.
 Print Assumptions C10_no_panic_and_mutex.
 
@@ -199,7 +219,7 @@ Print Assumptions C10_no_panic_and_mutex.
     by Run or by a client thread [me] that is the lock holder whenever its pc is inside the
     critical section - the simulation invariant [MInv] between model state and monitor state is
     preserved and the monitor raises nothing on the emitted events (clause 2, "second successful
-    Subscribe", never fires).  Missing for the full statement "verdict (hist (rinit true true true) ls) = 0":
+    Subscribe", never fires).  Missing for the full statement "verdict (hist (rinit true true true true) ls) = 0":
     the per-label lemmas for the other 17 label kinds and the reason clauses behind code 6. *)
 Theorem C10_monitor_accepts_partial : forall s m me par p c s1 p' e,
   SInv s -> MInv s m -> okbad m -> (rhl p = true -> holder s me par p) ->
@@ -210,9 +230,9 @@ Print Assumptions C10_monitor_accepts_partial.
 
 (** the hypotheses are satisfiable and the behaviour is non-trivial *)
 Example C10_running_reachable :
-  let s := run (rinit true true true) (firstn 18 shared_schedule) in
+  let s := run (rinit true true true true) (firstn 18 shared_schedule) in
   runningCh s = true /\ run_n s = 3 /\ map (fun h => h_subs (hs s h)) [0; 1; 2] = [1; 1; 1].
 Proof. vm_compute. repeat split. Qed.
 Example C10_second_run_example :
-  let s := run (rinit true true true) (firstn 5 shared_schedule ++ [LRunCall 7; LT 7 CStep]) in thr s 7 = TRunDone false.
+  let s := run (rinit true true true true) (firstn 5 shared_schedule ++ [LRunCall 7; LT 7 CStep]) in thr s 7 = TRunDone false.
 Proof. vm_compute. reflexivity. Qed.
